@@ -256,8 +256,9 @@ type c13Case struct {
 	Scenario string    `json:"scenario"`
 	Mode     string    `json:"mode"` // free | forced
 	Seed     int64     `json:"seed"`
-	Deny     bool      `json:"deny,omitempty"`  // destination refuses the source's entries
-	Keyed    bool      `json:"keyed,omitempty"` // all logs use one link-encrypting codec, payloads of 9 KiB, skip references
+	Deny     bool      `json:"deny,omitempty"`       // destination refuses the source's entries
+	Keyed    bool      `json:"keyed,omitempty"`      // all logs use one link-encrypting codec, payloads of 9 KiB, skip references
+	SlowIO   bool      `json:"slow_store,omitempty"` // every block write takes 120 ms while the workers run
 	Workers  [][]c13Op `json:"workers"`
 	Park     *c13Park  `json:"park,omitempty"`
 }
@@ -281,6 +282,9 @@ func (c c13Case) signature() string {
 	}
 	if c.Keyed {
 		s += "|keyed"
+	}
+	if c.SlowIO {
+		s += "|slow-store"
 	}
 	return s
 }
@@ -933,7 +937,13 @@ func (t *c13Tally) runCase(c c13Case) *c13Run {
 	}
 	var r *c13Run
 	ready := make(chan struct{})
-	go func() { r = c13Setup(c); close(ready) }()
+	go func() {
+		r = c13Setup(c)
+		if c.SlowIO {
+			r.api.d.stall = "brief"
+		}
+		close(ready)
+	}()
 	select {
 	case <-ready:
 	case <-time.After(3 * c13Watchdog):
@@ -1064,6 +1074,9 @@ func runC13(seed int64, tier string, outDir string) *result {
 		if i%8 == 1 || i%8 == 6 {
 			c.Keyed = true // sealed links and large payloads: the verification workers share the codec
 		}
+		if i%8 == 2 {
+			c.SlowIO = true // a slow store: other operations arrive while an append is writing its block
+		}
 		for w := 0; w < nw; w++ {
 			var ops []c13Op
 			for k := 0; k < 3+rng.Intn(4); k++ {
@@ -1115,7 +1128,7 @@ func runC13(seed int64, tier string, outDir string) *result {
 		frees = 2000
 	}
 	for i := 0; i < frees; i++ {
-		c := c13Case{Scenario: "random", Mode: "free", Seed: seed*7919 + int64(i)}
+		c := c13Case{Scenario: "random", Mode: "free", Seed: seed*7919 + int64(i), SlowIO: i%5 == 4}
 		for w, nw := 0, 3+rng.Intn(4); w < nw; w++ {
 			var ops []c13Op
 			for k := 0; k < 2+rng.Intn(4); k++ {
